@@ -334,6 +334,7 @@ def enabled_ops(m, maxrows):
     ops.append(['exc0'])
     ops.append(['inc_none'])
     ops.append(['exc_all'])
+    ops.append(['empty_again'])
     ops.append(['add', 'self'])
     for name, _, _ in operand_specs(cols):
         ops.append(['add', name])
@@ -516,6 +517,12 @@ def apply_op(op, t, m):
             return ret(t.inc(lambda **kw: False), Model(m.cols, []))
         if o == 'exc_all':
             return ret(t.exc(lambda **kw: True), Model(m.cols, []))
+        if o == 'empty_again':
+            # two filters that select nothing: what the caller does to the first (empty) result must not show in the second
+            e1 = t.exc(lambda **kw: True)
+            e1['zz'] = []
+            e2 = t.inc(lambda **kw: False) if n % 2 else t.exc(lambda **kw: True)
+            return ret(e2, Model(m.cols, []))
         if o == 'inc_kw_none':
             return ret(t.inc(**{op[1]: ['__no_such_value__']}), Model(m.cols, []))
         if o == 'radd0':
